@@ -31,13 +31,12 @@ Theorem bw_small_chunk rate ps at_ acc (c : chunk) fuel :
 Proof.
   intros Hf Hr Ha Hsmall Hlen sl s1 r. subst s1 r. cbn [on_input fst].
   rewrite bw_sleep_add_exact by (auto; pose proof (zlen_nonneg (cdata c)); lia).
-  fold sl. unfold bw_loop, bw_split_test.
-  destruct Hr as [Hr0 Hr1]. rewrite maxint_cent.
-  replace ((0 <=? rate) && (rate <=? 92233720368547758)) with true by (unfold two63 in *; lia). cbn [andb].
-  rewrite wrap64_id by (unfold two63 in *; lia).
-  replace (rate * 100 <? zlen (cdata c)) with false by lia.
+  fold sl. unfold bw_loop.
+  destruct Hr as [Hr0 Hr1].
+  replace (bw_split_test (zlen (cdata c)) rate) with false.
+  2:{ unfold bw_split_test. rewrite maxint_cent. rewrite wrap64_id by (unfold two63 in *; lia). unfold two63 in *; lia. }
   destruct fuel as [|[|f]]; try lia.
-  cbn [stage_emit mode_of on_timer on_sent].
+  cbn [stage_emit mode_of on_sent]. unfold on_timer. cbn [on_timer_gen on_sent].
   replace (Z.max at_ (at_ + sl)) with (at_ + Z.max 0 sl) by lia.
   replace (sl - (at_ + Z.max 0 sl - at_)) with (Z.min 0 sl) by lia.
   destruct f; unfold final_st; simpl; auto.
@@ -47,19 +46,19 @@ Qed.
     bytes is offered, and the stage continues with the rest and 100 ms less to sleep *)
 Theorem bw_instalment rate now (p : chunk) sl :
   rate_ok rate -> rate * 100 < zlen (cdata p) ->
-  bw_loop rate p sl now = BwInst p sl (now + bw_instalment_ns) /\
+  bw_loop rate p sl now = BwInst p rate sl (now + bw_instalment_ns) /\
   bw_instalment_ns = 100000000 /\
-  on_timer (TBandwidth rate) (now + bw_instalment_ns) (BwInst p sl (now + bw_instalment_ns)) =
+  on_timer (TBandwidth rate) (now + bw_instalment_ns) (BwInst p rate sl (now + bw_instalment_ns)) =
     Send (mkChunk (slice_to (cdata p) (rate * 100)) (cts p))
          (KBwLoop (mkChunk (slice_from (cdata p) (rate * 100)) (cts p)) (sl - bw_instalment_ns)) /\
   zlen (slice_to (cdata p) (rate * 100)) = rate * 100.
 Proof.
-  intros [Hr0 Hr1] Hbig. unfold bw_loop, bw_split_test. rewrite maxint_cent.
-  replace ((0 <=? rate) && (rate <=? 92233720368547758)) with true by (unfold two63 in *; lia). cbn [andb].
-  rewrite wrap64_id by (unfold two63 in *; lia).
-  replace (rate * 100 <? zlen (cdata p)) with true by lia.
+  intros [Hr0 Hr1] Hbig. unfold bw_loop.
+  replace (bw_split_test (zlen (cdata p)) rate) with true.
+  2:{ unfold bw_split_test. rewrite maxint_cent. rewrite wrap64_id by (unfold two63 in *; lia). unfold two63 in *; lia. }
   split; [reflexivity|]. split; [reflexivity|]. split.
-  - cbn [on_timer]. unfold bw_instalment_bytes. rewrite wrap64_id by (unfold two63 in *; lia).
+  - unfold on_timer. cbn [on_timer_gen]. replace (if bw_cut_uses_tested_rate then rate else rate) with rate by (destruct bw_cut_uses_tested_rate; reflexivity).
+    unfold bw_instalment_bytes. rewrite wrap64_id by (unfold two63 in *; lia).
     unfold slice_ok. replace ((0 <=? 0) && (0 <=? rate * 100) && (rate * 100 <=? zlen (cdata p))) with true by lia.
     reflexivity.
   - apply zlen_slice_to. lia.
